@@ -151,7 +151,8 @@ impl Node {
         requires old(self).handle == other.handle, old(self).wf(), other.wf(),
             other.last_request is None || old(self).status_at(clock()) != NodeStatus::Good,
         ensures final(self).handle == old(self).handle, final(self).wf(),
-            *final(self) == old(self).update_spec(other), // @C08.update_in_place
+            *final(self) == old(self).update_spec(other), // @C10.update_exact
+            rank(final(self).status_at(clock())) >= rank(other.status_at(clock())), // @C08.repeat_offer_is_admitted
             final(self).abs() == f_update(old(self).abs(), other.abs(), clock()), // @C10.update_transition
             real(*old(self)) ==> real(*final(self)),
             rank(final(self).status_at(clock())) >= rank(old(self).status_at(clock())), // @C08.update_never_downgrades
